@@ -256,6 +256,38 @@ func runC20(c c20Case) (c20Case, error) {
 			return c, failure
 		}
 	}
+	// the verdict is part of the "values" the statement quantifies over: a check that REJECTS (wrong
+	// key, corrupted fingerprint) is the same hot path on a server and must not allocate either
+	// (release build: the errors are sentinels; the debug build's detailed error values are exempt - C20
+	// runs without the tag)
+	if c.Sign != nil {
+		wrong := stun.MessageIntegrity(append(append([]byte(nil), c.Sign.key()...), 'x'))
+		if !measure("MessageIntegrity.Check (wrong key: mismatch)", func() error {
+			if err := wrong.Check(warm); err == nil {
+				return fmt.Errorf("wrong key accepted")
+			}
+
+			return nil
+		}) {
+			return c, failure
+		}
+	}
+	if c.FP && len(data) >= 28 {
+		bad := new(stun.Message)
+		corrupted := append([]byte(nil), data...)
+		corrupted[len(corrupted)-1] ^= 0x01 // last byte of the FINGERPRINT value
+		if err := stun.Decode(corrupted, bad); err == nil && stun.Fingerprint.Check(bad) != nil {
+			if !measure("Fingerprint.Check (corrupted value: mismatch)", func() error {
+				if err := stun.Fingerprint.Check(bad); err == nil {
+					return fmt.Errorf("corrupted fingerprint accepted")
+				}
+
+				return nil
+			}) {
+				return c, failure
+			}
+		}
+	}
 	_ = sink
 
 	return c, nil
